@@ -31,7 +31,7 @@ def run(chk):
                        'to N_written, and the per-file counts returned are the ones that select each file\'s halos for its particle file; '
                        'file order is preserved from the path list to every per-file loop; duplicate and mixed-catalog inputs raise; the '
                        'filter sees N exactly when the final rename happens (guard equivalence); the empty result is safe (cumsum, C19).')
-    chk.rule('C03-R1', 'compaction bookkeeping: slot, halos[:n] = halos[mask], the same n advances N_written and is stored per file; truncation; counts flow to _load_subsamples', 6)
+    chk.rule('C03-R1', 'compaction bookkeeping: slot, halos[:n] = halos[mask], the same n advances N_written and is stored per file on every path; truncation; counts flow to _load_subsamples', 7)
     chk.rule('C03-R2', 'file order preserved: sorted glob or user order; files, cleaning files, superslab indices and particle files indexed by one position', 5)
     chk.rule('C03-R3', 'duplicate paths and mixed catalogs are rejected with an error', 2)
     chk.rule('C03-R4', 'the filter sees the cleaned count as N exactly when the final rename N_total -> N happens', 2)
@@ -77,6 +77,18 @@ def run(chk):
     loaded = [s for s in body if isinstance(s, ast.For) and '_load_halo_field' in unparse(s)]
     okord = okord and bool(loaded) and body.index(loaded[0]) < body.index(FB)
     chk.check(okord, 'C03-R1', CAT, CLS + '_read_halo_info', 'order: slot, unpack fields, filter, advance', '', 'the filter runs before the columns are unpacked, or the counter advances before the filter', node=L, nontrivial=False)
+    # must-pass-through: no early exit of the per-file iteration can skip the bookkeeping
+    exits = []
+    for n in walk_no_nested(L):
+        if isinstance(n, (ast.Continue, ast.Break, ast.Return)):
+            p = getattr(n, '_parent', None)
+            while p is not None and not isinstance(p, (ast.For, ast.While)):
+                p = getattr(p, '_parent', None)
+            if p is L:
+                exits.append(n)
+    chk.check(not exits, 'C03-R1', CAT, CLS + '_read_halo_info', 'every iteration of the per-file loop reaches the count bookkeeping (no continue/break/return)', '',
+              f'{type(exits[0]).__name__.lower() if exits else ""} at line {exits[0].lineno if exits else 0} leaves the per-file iteration before N_written / N_halo_per_file are updated: '
+              'a file that takes this path keeps its pre-filter count and later files\' halos are paired with the wrong particle file', node=exits[0] if exits else L)
     init0 = [s for s in fn.body if isinstance(s, ast.Assign) and unparse(s.targets[0]) == 'N_written' and unparse(s.value) == '0']
     trunc = [s for s in fn.body if isinstance(s, ast.Assign) and unparse(s.targets[0]) == 'self.halos' and unparse(s.value) == 'self.halos[:N_written]']
     oktr = len(init0) == 1 and init0[0].lineno < L.lineno and len(trunc) == 1 and trunc[0].lineno > L.end_lineno
